@@ -395,6 +395,9 @@ def check_distance(ctx, R="C04.distance"):
 
 
 def check(ctx):
+    from .c03 import check_cache
+
+    ctx.run(check_cache, R="C04.cache")  # footprint containment / overlap is answered from the cached bounded prism
     ctx.run(check_distance)
     ctx.run(check_computed)
     ctx.run(check_transforms)
